@@ -96,7 +96,7 @@ def correspondence(ck, binpath, n, corpus):
         elif "hist" in v:
             cases.append(v)
     terms = [case_terms(c) for c in cases]
-    failing = ck.coq_failing("corr", terms, REQS, prelude=PRELUDE, per_shard=30)
+    failing = ck.coq_failing("corr", terms, REQS, prelude=PRELUDE, per_shard=10)
     for c in cases:
         ck.count_case(("corr",) + shape(c), nontrivial=nontrivial(c["hist"]))
     if failing:
